@@ -132,7 +132,9 @@ claim('C07',
       'search, never a scan of FileContents); a declaration leaves a FindResult only through get_single_instance '
       '(0 or >1 matches raise); the kind hint equals the kind the result is used as; written names are never spelled '
       'into the output and resolved declarations are rendered root-qualified from their own fqn; find_fqn matches by '
-      'whole-name equality. That scope_resolution_order yields the right chain of candidates is value-level (shape '
+      'whole-name equality; a hand-written memo of resolutions is keyed by the written name AND the referring scope '
+      '(C07.memo: every parameter the remembered value depends on is part of the key; names handed to a helper are '
+      'judged at its callers). That scope_resolution_order yields the right chain of candidates is value-level (shape '
       'decided by C14).',
       'Trusted: python ast, E1 types, the reference table port->enclosing scope of the encapsulee, formal/reply type->'
       'declaring interface scope (Dezyne scoping rules).')
@@ -145,8 +147,11 @@ claim('C05',
       'its return type and the FileContents container agree, each container has one writer, each branch appends once, '
       'every declaration class (plus file-name, import, namespace) has a branch and nested enums/subints are hoisted; '
       'unknown classes / non-dict elements cannot abort siblings and namespaces recurse over every sub-element under a '
-      'child scope; every parse_X passes all fields of X, each fed from the getter for its Dezyne JSON key, with fqn = '
-      'parent scope + own name; list fields are order- and cardinality-preserving maps; the string->enum decoders are '
+      'child scope; every parse function by contract (asserts the <class> tag of X, returns X) interpreted (E7) on 123 '
+      'generated well-formed elements hands back an object whose every field holds what the element says - strings and '
+      'numbers unchanged, lists element-wise in order, directions decoded, fqn = parent scope + own name (fallback when '
+      'not interpretable: every parse_X passes all fields of X, each fed from the getter for its Dezyne JSON key; list '
+      'fields are order- and cardinality-preserving maps); a memo of the parser is keyed by all it depends on (C05.memo); the string->enum decoders are '
       'total, injective and name-preserving. The values of fully-qualified names and whole-document round-trip equality '
       'are value-level and are NOT decided.',
       'Trusted: python ast, the Dezyne JSON schema table (ast field <-> JSON key, class <-> <class> tag) embedded in '
@@ -190,7 +195,8 @@ claim('C04',
       'under has_value() of the value obtained from CurrentClient() of the same port, on that value\'s port; all client '
       'in-events reach the component through the arbitered port whose in-events are dzn::shell links; every field of the '
       'multi-client settings is validated with MultiClientCfgError and the feature is restricted to MTS; in the support '
-      'header Select assigns the selection only for registered clients. Known finding K1 (Deselect resets whoever '
+      'header Select assigns the selection only for registered clients and an entry found by an ordered search '
+      '(lower_bound ...) is used only after its key was compared with the identifier. Known finding K1 (Deselect resets whoever '
       'calls) is reported as KNOWN-FINDING. Behaviour over histories of claims/releases is a trace property and is NOT '
       'decided.',
       'Trusted: python ast, E4/E5, clang++ 14 JSON AST of the explicit instantiation, /verif/cxx/mock.')
